@@ -239,6 +239,7 @@ class Evaluator:
         self.stack = []                 # executing elements
         self.edges = {}                 # caller element -> set(callee elements | ("obj", path, name))
         self.attrreads = {}             # element -> set((owner path, refname))
+        self.attrpass = {}              # element -> references read by attribute inside uncached callees
         self.static = {}                # id(RSpace) -> Inst
         self.counts = {}                # element -> number of executions (entry probe)
         self.fault_occ = {}
@@ -471,6 +472,7 @@ class Evaluator:
             self.lines.pop()
             self.edges.pop(el, None)
             self.attrreads.pop(el, None)
+            self.attrpass.pop(el, None)
             raise
         self.stack.pop()
         self.lines.pop()
@@ -486,8 +488,13 @@ class Evaluator:
                 # callees of the uncached cells pass through to the cached caller
                 for callee in self.edges.pop(el, set()):
                     self.edges[caller].add(callee)
+                # references it read by attribute are handed on as well (needed for invalidation)
+                for ref in self.attrreads.pop(el, set()) | self.attrpass.pop(el, set()):
+                    self.attrpass.setdefault(caller, set()).add(ref)
             else:
                 self.edges.pop(el, None)
+                self.attrreads.pop(el, None)
+                self.attrpass.pop(el, None)
         return val
 
     def run_formula(self, inst, name, f, key):
@@ -858,6 +865,7 @@ class Evaluator:
         return out
 
     def drop(self, el):
+        self.attrpass.pop(el, None)
         self.memo.pop(el, None)
         self.inputs.discard(el)
         self.edges.pop(el, None)
